@@ -59,6 +59,11 @@ def scenario(name):
         pre += ["cnew 0", "cdef 0 s %s %s" % (hx("xs"), hx(b"abcbc")), "cadd 0 - " + hx(rx), "crules 0 0",
                 "buf 3 " + hx(b"xx needle abcx xabac a\x00b\x00c\x00x\x00 bbd")]
         win = ["snew 0 0", "scan s0 mem 3 0 0 -", "scan s0 mem 3 0 0 -", "scan r0 mem 3 0 0 -"]
+    elif name == "many_matches":
+        # tens of thousands of matches: the match notebook grows page by page during the scan
+        pre += ["cnew 0", "cadd 0 - " + hx('rule mm { strings: $a = "ab" $b = /b[a-z]/ condition: #a > 10 and #b > 10 }\n'), "crules 0 0",
+                "bufrep 3 %s 40000 %s" % (hx(b"ab"), hx(b" end"))]
+        win = ["snew 0 0", "scan s0 mem 3 0 0 - - - 1000 n", "scan s0 mem 3 0 0 - - - 1000 n", "scan r0 mem 3 0 0 - - - 1000 n"]
     else:
         win = ["fini", "init", "cnew 0"] + defs[:2] + ["cadd 0 - " + hx("rule bad { strings: $a = /(a|b/ condition: $a }"),
                "cnew 1", "cadd 1 %s %s" % (hx("ns"), hx('rule ok { strings: $a = { 01 02 [2-4] 03 } $b = "x" xor(1-3) condition: 1 of them }\nrule bad2 { condition: nope }')),
@@ -68,7 +73,7 @@ def scenario(name):
     return "\n".join(L) + "\n"
 
 
-SCENARIOS = ["compile_scan", "save_load", "scanner_api", "init_compile_errors", "regex_scan"]
+SCENARIOS = ["compile_scan", "save_load", "scanner_api", "init_compile_errors", "regex_scan", "many_matches"]
 
 
 def run_oom(exe, script_text, outdir, kfrom, kto, after, stride, par):
